@@ -284,6 +284,14 @@ def fold_unit(X, method, own_range=False):
         folds = ctx.ghost.get('folds', [])
         writes = [e for e in ctx.effects if e[0].startswith('write')]
         ctx.oblige('pure: no write to the estimate, the library or the correlations', z3.BoolVal(not writes))
+        # outside its own range the estimate raises -- unless one of its constituents has no heat-capacity data: such constituents answer with the
+        # incomplete-data warning, and so does the estimate (C06: "raises an error or - only through constituents that have no heat-capacity data -
+        # emits the incomplete-data warning").  `some constituent without Cp data` is the witness j of the quantified all() in the code.
+        from .gd import HasCp
+        warned = [e for e in ctx.effects if e[0] == 'warn']
+        jj = ctx.fresh('any_j', 'int')
+        ctx.instantiate([jj, CorrAt(jj)])
+        all_cp_j = z3.Implies(z3.And(0 <= jj, jj < n), HasCp(CorrAt(jj)))          # (arbitrary constituent j)
         if out.kind == 'raise':
             # spec: IncompleteDataError iff some constituent raises it; the skolem index k is the raising element
             if len(folds) == 0 and ctx.counters.get('fold_k'):
@@ -291,10 +299,13 @@ def fold_unit(X, method, own_range=False):
                 check_outcome(I, out, raises={'IncompleteDataError': Raises[X](CorrAt(k), T), 'OutsideCorrelationError': outside})
             else:
                 check_outcome(I, out, raises={'OutsideCorrelationError': outside})
+            # (C06 allows the error in every case; that the code prefers the warning when a constituent has no heat-capacity data is its choice, not an obligation)
             return {'inputs': {}}
         r = out.value
         if own_range:
-            ctx.oblige('a value is returned only for a temperature inside the range the estimate itself declares (whatever its constituents accept)', z3.Not(outside))
+            ctx.oblige('a value is returned for a temperature outside the range the estimate itself declares only together with the incomplete-data warning '
+                       '(whatever its constituents accept)', z3.Or(z3.Not(outside), z3.BoolVal(any(e[1] == 'IncompleteDataWarning' for e in warned))))
+        ctx.oblige('no warning of its own inside the declared range', z3.Or(outside, z3.BoolVal(not warned)))
         if ctx.counters.get('fold_k') is None:
             # empty mapping: the sum over no terms
             ctx.oblige('empty estimate sums to 0', z3.And(n == 0, z3_of(r) == 0))
